@@ -63,7 +63,11 @@ FreeAns == [st |-> "free", kind |-> "", tag |-> 0 - 1, cap |-> "", exps |-> <<>>
 \*      lcap    <<tag, capability>>: local calls whose parameters carry a capability of this vat
 \*      qpar    <<question id, export id>>: exports created / referenced by the parameters of an open question (a bag would be needed for
 \*              several descriptors of one export in one call; the scripts put one capability in a call)
-FreeEmb == [lseq |-> <<>>, out |-> {}, held |-> {}, ptgt |-> {}, fwd |-> <<>>, fwdres |-> {}, req |-> {}, conc |-> {}, lcap |-> {}, qpar |-> {}]
+\*      ptgt    (third component: the path, "" = the result itself, "f0" = its pointer field 0)
+\*      etgt    received calls addressed to an export: <<tag, export id>>
+\*      tight   the script runs with an answer queue of one entry (calls over the limit may be refused: server.Policy)
+FreeEmb == [lseq |-> <<>>, out |-> {}, held |-> {}, ptgt |-> {}, fwd |-> <<>>, fwdres |-> {}, req |-> {}, conc |-> {}, lcap |-> {}, qpar |-> {},
+            etgt |-> {}, tight |-> FALSE]
 Fresh == /\ ans = [i \in Ids |-> FreeAns] /\ exp = [i \in Ids |-> [cap |-> "", wire |-> 0]]
          /\ qst = [i \in Ids |-> "free"] /\ qtag = [i \in Ids |-> 0 - 1] /\ qrel = [i \in Ids |-> FALSE] /\ imp = [i \in Ids |-> 0] /\ lh = {}
          /\ started = <<>> /\ callseq = <<>> /\ appret = {} /\ shut = <<>> /\ caps = {"B"} /\ lres = {} /\ pret = {}
@@ -101,7 +105,8 @@ RecvCall == /\ Msg("recv", "call") /\ Consume
             /\ ans' = [ans EXCEPT ![E.q] = [FreeAns EXCEPT !.st = "open", !.kind = "call", !.tag = E.tag]]
             /\ callseq' = Append(callseq, E.tag)
             /\ imp' = [i \in Ids |-> imp[i] + Count([j \in 1..Len(E.caps) |-> IF E.caps[j][1] \in {"senderHosted", "senderPromise"} THEN E.caps[j][2] ELSE 0 - 1], i)]
-            /\ emb' = IF E.tgt = "ans" THEN [emb EXCEPT !.ptgt = @ \cup {<<E.tag, E.on>>}] ELSE emb
+            /\ emb' = IF E.tgt = "ans" THEN [emb EXCEPT !.ptgt = @ \cup {<<E.tag, E.on, E.path>>}]
+                       ELSE IF E.tgt = "imp" THEN [emb EXCEPT !.etgt = @ \cup {<<E.tag, E.e>>}] ELSE emb
             /\ Keep(<<exp, qst, qtag, qrel, lh, started, appret, shut, caps, lres, pret, closed, aborted>>)
 \* Finish: the answer's result table is dropped; with releaseResultCaps the exports it carried lose those references
 RecvFinish == /\ Msg("recv", "finish") /\ Consume
@@ -176,10 +181,23 @@ SendReturn ==
                      /\ ans' = [ans EXCEPT ![E.q].st = "returned", ![E.q].imp = IF r[2] = "ok" THEN r[4] ELSE 0 - 1]
   /\ Keep(<<qst, qtag, qrel, imp, lh, started, callseq, appret, shut, caps, lres, pret, closed, aborted, emb>>)
 \* an exception Return for a call that never reached a method body (unknown target, failed pipelined target ...)
+\* - but not for a call that can be delivered: its target is a capability this vat holds for the peer (the bootstrap capability
+\* through its unfinished answer, the capability in the result of an unfinished answer that returned one, a live export) and
+\* neither the call nor its target answer was finished, the connection is up and no answer-queue limit is in play
+Deliverable(q) ==
+  LET a == ans[q] IN
+  /\ ~closed /\ ~aborted /\ ~emb.tight /\ ~a.fin
+  /\ \/ \E x \in emb.ptgt : /\ x[1] = a.tag
+                             /\ LET t == ans[x[2]] IN
+                                /\ ~t.fin /\ t.st # "free"
+                                /\ \/ t.kind = "bootstrap" /\ x[3] = ""
+                                   \/ t.kind = "call" /\ x[3] = "f0" /\ \E r \in appret : r[1] = t.tag /\ r[2] = "ok" /\ r[3] # ""
+     \/ \E y \in emb.etgt : y[1] = a.tag /\ exp[y[2]].cap # "" /\ exp[y[2]].wire > 0
 SendReturnNoBody ==
   /\ Msg("send", "return") /\ Consume
   /\ ans[E.q].st = "open" /\ ans[E.q].kind = "call" /\ E.kind = "exception"
   /\ ~\E s \in Range(started) : s[2] = ans[E.q].tag
+  /\ ~Deliverable(E.q)
   /\ ans' = [ans EXCEPT ![E.q].st = "returned"]
   /\ UNCHANGED emb
   /\ Keep(<<exp, qst, qtag, qrel, imp, lh, started, callseq, appret, shut, caps, lres, pret, closed, aborted>>)
@@ -316,6 +334,8 @@ LCallCap == /\ Ev("l-call") /\ E.cap # "" /\ Consume
             /\ caps' = caps \cup {E.cap}
             /\ emb' = [emb EXCEPT !.lcap = @ \cup {<<E.tag, E.cap>>}]
             /\ Keep(<<ans, exp, qst, qtag, qrel, imp, lh, started, callseq, appret, shut, lres, pret, closed, aborted>>)
+Policy == /\ Ev("policy") /\ Consume /\ emb' = [emb EXCEPT !.tight = TRUE]
+          /\ Keep(<<ans, exp, qst, qtag, qrel, imp, lh, started, callseq, appret, shut, caps, lres, pret, closed, aborted>>)
 \* an error report that blames the peer: the peers of these scripts are well formed, so there is none while the connection is open
 Reported == /\ Ev("reported") /\ Consume
             /\ (E.kind = "blames-peer" => closed)
@@ -347,7 +367,7 @@ CloseReturned == /\ Ev("close-returned") /\ Consume
 
 Next == Reset \/ RecvBootstrap \/ RecvCall \/ RecvFinish \/ RecvRelease \/ RecvReturn \/ RecvDisembargo \/ RecvOther
         \/ SendReturn \/ SendReturnNoBody \/ SendReturnForwarded \/ SendQuestion \/ SendFinish \/ SendRelease \/ SendAbort
-        \/ SendDisembargoSender \/ SendDisembargoEcho \/ SendOther \/ LPCall \/ LCallCap \/ Reported
+        \/ SendDisembargoSender \/ SendDisembargoEcho \/ SendOther \/ LPCall \/ LCallCap \/ Reported \/ Policy
         \/ AppStart \/ AppReturn \/ Shutdown \/ CloseInvoked \/ LHandle \/ LRelease \/ LocalResult \/ Passive \/ Quiesce \/ QuiesceRefs \/ CloseReturned
 Spec == Init /\ [][Next]_vars
 
